@@ -224,14 +224,14 @@ def _mkrepo(path, branches, tags):
         _git(path, "tag", t)
 
 
-def _update_and_compare(ctx, r, rdir, remote, remote_seen, local_seen, tags, v, extra_sig=None):
+def _update_and_compare(ctx, r, rdir, remote, remote_seen, local_seen, tags, v, extra_sig=None, update=None):
     """one RallyRepository.update against real git: model correspondence + the documented-choice oracle.
     remote_seen / local_seen are the branch sets as git itself shows them (upstream / clone) before the update."""
     from esrally import exceptions
 
     case = {"remote": remote, "tags": tags, "v": v}
     try:
-        r.update(case["v"])
+        (update or r.update)(case["v"])
         head = _git(rdir, "rev-parse", "--abbrev-ref", "HEAD")
         if head == "HEAD":
             obs = {"r": ["tag", _git(rdir, "describe", "--tags", "--exact-match")]} if False else {"r": ["tag", None]}
@@ -269,7 +269,7 @@ def _update_and_compare(ctx, r, rdir, remote, remote_seen, local_seen, tags, v, 
         e, ok = oracle_best_match(local_seen, case["v"])
         if ok and e is not None:
             exp = {"r": ["branch", e]} if (e in local_seen or e in remote_seen) else {"err": "DataError"}
-        elif ok:
+        elif ok and case["v"] is not None:
             mt = STRICT.match(case["v"])
             M, mi, pa, sf = mt.group(1), mt.group(2), mt.group(3), mt.group(4)
             cands = ([f"v{int(M)}.{int(mi)}.{int(pa)}-{sf}"] if sf else []) + [f"v{int(M)}.{int(mi)}.{int(pa)}", f"v{int(M)}.{int(mi)}", f"v{int(M)}"]
@@ -358,6 +358,32 @@ def _branch_names(rng, lo, hi, weird=0.05):
     return out
 
 
+def _update_via_caller(via, origin, root, v):
+    """the two places Rally selects a repository branch from: loader.GitTrackRepository (tracks) and team.team_path (teams), driven
+    with a configuration object as racecontrol / the mechanic set it up (no explicit revision)"""
+    from esrally import config
+    from esrally.mechanic import team
+    from esrally.track import loader
+
+    cfg = config.Config()
+    A = config.Scope.application
+    cfg.add(A, "system", "offline.mode", False)
+    cfg.add(A, "node", "root.dir", root)
+    if v is not None:
+        cfg.add(A, "mechanic", "distribution.version", v)
+    if via == "track-repository":
+        cfg.add(A, "track", "repository.name", "r")
+        cfg.add(A, "tracks", "r.url", origin)
+        cfg.add(A, "benchmarks", "track.repository.dir", "")
+        loader.GitTrackRepository(cfg, fetch=True, update=True)
+    else:
+        cfg.add(A, "mechanic", "repository.name", "r")
+        cfg.add(A, "mechanic", "repository.revision", None)
+        cfg.add(A, "teams", "r.url", origin)
+        cfg.add(A, "mechanic", "team.repository.dir", "")
+        team.team_path(cfg)
+
+
 def gen_repo_history(ctx):
     """state carried between Rally invocations: one clone, an upstream whose branch set changes (branches added, retired,
     re-created) between invocations, a new RallyRepository (fetch + update) per invocation"""
@@ -384,7 +410,10 @@ def gen_repo_history(ctx):
                     mi = int(mt.group(2)) if mt.group(2) else rng.randrange(0, 4)
                     vs += [f"{M}.{mi}.{rng.randrange(0, 3)}", f"{M}.{mi + 1}.0", f"{M + 1}.0.0"]
             v = rng.choice(vs) if vs and rng.random() < 0.85 else rng.choice(["7.3.1", "7.8.0", "8.0.0", "7.6.2"])
-            epochs.append({"add": add, "delete": delete, "v": v})
+            if rng.random() < 0.2:
+                v = None  # the version is unknown (no distribution version configured): master
+            # who asks: RallyRepository.update itself, or one of its two callers with a configuration object
+            epochs.append({"add": add, "delete": delete, "v": v, "via": rng.choice(["direct", "direct", "track-repository", "team-repository"])})
         tags = []
         for _ in range(rng.randrange(0, 2)):
             t = "v" + gen_branch(rng, weird=0.0)
@@ -416,9 +445,16 @@ def run_repo_history(ctx, case):
             # what the upstream repository and the clone hold now, as git itself tells it
             remote_seen = [b for b in _git(origin, "for-each-ref", "--format=%(refname:short)", "refs/heads").split("\n") if b]
             local_seen = [b for b in _git(rdir, "for-each-ref", "--format=%(refname:short)", "refs/heads").split("\n") if b]
-            r = repo.RallyRepository(origin, root, "r", "tracks", offline=False, fetch=True)
             retired = bool(ep["delete"]) or any(e["delete"] for e in case["epochs"][:k])
-            _update_and_compare(ctx, r, rdir, True, remote_seen, local_seen, case["tags"], ep["v"], extra_sig=["history", retired])
+            via = ep.get("via", "direct")
+            if via == "direct":
+                r = repo.RallyRepository(origin, root, "r", "tracks", offline=False, fetch=True)
+                upd = None
+            else:
+                r = None
+                upd = lambda v, via=via: _update_via_caller(via, origin, root, v)
+            _update_and_compare(ctx, r, rdir, True, remote_seen, local_seen, case["tags"], ep["v"], extra_sig=["history", retired, via, ep["v"] is None], update=upd)
+            ctx.count("history-via:" + via)
             ctx.count("history-epochs")
             if retired:
                 ctx.count("history-epochs-after-a-branch-was-retired-upstream")
